@@ -399,10 +399,36 @@ class FunctionNormalizer:
 
         ok = [True]
 
+        def read_only(node, u) -> bool:
+            """A COMPUTED value (not an alias of an existing object) may be re-computed at a use only if that use merely reads it:
+            a store into it, a method call on it or handing it to arbitrary code would act on a fresh object each time."""
+            if chain_case:
+                return True
+            path = _path_to(node, u) or []
+            if len(path) < 2:
+                return False
+            par = path[-2]
+            if isinstance(par, (ast.Compare, ast.BinOp, ast.UnaryOp, ast.BoolOp, ast.FormattedValue, ast.Return, ast.Starred, ast.comprehension)):
+                return True
+            if isinstance(par, (ast.If, ast.While, ast.IfExp, ast.Assert)):
+                return par.test is u
+            if isinstance(par, (ast.For, ast.AsyncFor)):
+                return par.iter is u
+            if isinstance(par, ast.Subscript):
+                return par.slice is u or isinstance(par.ctx, ast.Load)
+            if isinstance(par, ast.Attribute):
+                gp = path[-3] if len(path) >= 3 else None
+                return isinstance(par.ctx, ast.Load) and not (isinstance(gp, ast.Call) and gp.func is par)
+            if isinstance(par, ast.Call):
+                return isinstance(par.func, ast.Name) and par.func.id in _PURE_BUILTINS and par.func is not u
+            if isinstance(par, (ast.Tuple, ast.List, ast.Set, ast.Dict, ast.Slice, ast.keyword)):
+                return False
+            return False
+
         def expr(node, live) -> bool:
             uses = _loads(node, t)
             k = kills(node)
-            if uses and (not live or any(deferred(node, u) for u in uses)):
+            if uses and (not live or any(deferred(node, u) for u in uses) or not all(read_only(node, u) for u in uses)):
                 ok[0] = False
             elif uses and k:
                 # only what is evaluated BEFORE a use within the same expression can spoil it (operands left to right, arguments
@@ -456,6 +482,8 @@ class FunctionNormalizer:
                     tg = s.targets if isinstance(s, ast.Assign) else [s.target]
                     if any(_loads(x, t) for x in tg) and kills(s):
                         ok[0] = False
+                    if not all(read_only(s, u) for x in tg for u in _loads(x, t)):
+                        ok[0] = False   # `t[k] = v` stores INTO the object t names
                     value_live = expr(s.value, live)
                     live = value_live and not any(kills(x) for x in tg)
                 else:
@@ -1479,6 +1507,17 @@ class Normalizer:
             self.stats["helper_sites_inlined"] += tr.count
         return changed
 
+    def _site_tag(self, fi, fn) -> str:
+        """Suffix for the locals of one inlined copy of a helper: the helper's name, numbered from the second copy in the same
+        function on (two copies must not share their temporaries)."""
+        base = fi.node.name.strip("_")
+        names = {n.id for n in ast.walk(fn) if isinstance(n, ast.Name)}
+        k, tag = 1, base
+        while any(x.endswith("__" + tag) for x in names):
+            k += 1
+            tag = f"{base}_{k}"
+        return tag
+
     def _inline_multi_return(self, st, fn, fi, recv, call, mode, hb) -> Optional[List[ast.stmt]]:
         """A helper with several returns: as the whole value of a `return` its body stands in place of the statement; as the
         value of `T = helper(…)` its returns become assignments to T (single-exit form)."""
@@ -1491,7 +1530,7 @@ class Normalizer:
         caller_names = {n.id for n in ast.walk(fn) if isinstance(n, ast.Name)} | {x.arg for x in ast.walk(fn) if isinstance(x, ast.arg)}
         pre: List[ast.stmt] = []
         mapping: Dict[str, ast.expr] = {}
-        tag = fi.node.name.strip("_")
+        tag = self._site_tag(fi, fn)
         for p, v in binding.items():
             uses = sum(len(_loads(s, p)) for s in hb)
             if self._trivial(v) and p not in helper_locals:
@@ -1549,6 +1588,7 @@ class Normalizer:
             return None
         pre: List[ast.stmt] = []
         mapping: Dict[str, ast.expr] = {}
+        site_tag = self._site_tag(fi, fn)
         body_nodes = stmts + ([final] if final else [])
         helper_locals = {n.id for s in body_nodes for n in ast.walk(s) if isinstance(n, ast.Name) and isinstance(n.ctx, ast.Store)}
         target_names = {n.id for t in (st.targets if isinstance(st, ast.Assign) else []) for n in ast.walk(t) if isinstance(n, ast.Name)}
@@ -1576,7 +1616,7 @@ class Normalizer:
                     any(isinstance(n, (ast.Attribute, ast.Subscript)) for n in ast.walk(v)) and any(isinstance(n, ast.Call) for s_ in body_nodes for n in ast.walk(s_))):
                 mapping[p] = v   # (an argument reading object state is not moved past calls of the helper body)
             else:
-                tmp = f"{p}__{fi.node.name.strip('_')}"
+                tmp = f"{p}__{site_tag}"
                 pre.append(_loc(ast.Assign(targets=[ast.Name(id=tmp, ctx=ast.Store())], value=v), st))
                 mapping[p] = ast.Name(id=tmp, ctx=ast.Load())
         for l in helper_locals:
@@ -1586,7 +1626,7 @@ class Normalizer:
                 mapping[l] = ast.Name(id=result_var[1], ctx=ast.Load())
                 continue
             if l in caller_names:
-                mapping[l] = ast.Name(id=f"{l}__{fi.node.name.strip('_')}", ctx=ast.Load())
+                mapping[l] = ast.Name(id=f"{l}__{site_tag}", ctx=ast.Load())
         rn = _Rename(mapping)
         out = pre + [_loc_all(rn.visit(s), st) for s in stmts]
         if final is not None and final.value is not None:
